@@ -29,6 +29,19 @@ CALLERS = [('write_parameters', 'write_parameters'), ('write_parameter_ranges', 
            ('plot_params_1d', 'plot_params_1d'), ('plot_params_2d', 'plot_params_2d')]
 
 
+def _gather_index(col, base, label):
+    """col == table column ``base`` (over ``label``) read at the rows idx: idx, else None"""
+    if not isinstance(col, Arr) or col.mask is not None or col.ndim != 1 or not col.poly.is_monomial():
+        return None
+    (m, c), = col.poly.t.items()
+    if c != 1 or len(m) != 1 or m[0][1] != 1:
+        return None
+    a = m[0][0]
+    if a[0] == 'fn' and a[1] == 'at' and len(a) == 4 and a[2][0] == 'B' and a[2][1] == label and a[3][0] == 'P' and Poly.from_key(a[2][2]) == sym(base, label):
+        return Poly.from_key(a[3][1])
+    return None
+
+
 def check_filter_table(ctx):
     repo = ctx.repo
     ft = ctx.fn(repo.func('fit_info', 'FitInfo.filter_table'))
@@ -47,11 +60,8 @@ def check_filter_table(ctx):
     member = alg.mk_ind('true', mk_fn('isin', P(sym('tname', T_)), B(R_, sym('mname', R_))))
     rank = alg.array_fn('argsort', R_, alg.array_fn('argsort', R_, sym('mname', R_)))
     new = T_ + "'"
-    for c, base in (('MODEL_NAME', sym('tname', T_)), ('P1', sym('p1', T_))):
-        ref = mk_fn('at', B(new, mk_fn('compress', L(new), B(T_, base), B(T_, member))), P(rank))
-        compare(ctx, 'PERM-9', 'filter_table column %s' % c, where_, out.cols.get(c), ref, (R_,), vocab={'tname', 'p1', 'mname', 'chi2', 'av', 'sc', 'model_id'}, fns={'isin', 'compress', 'nonzero', 'invperm'}, findings=I.findings,
-                detail_ok='col[isin(table names, fit names)][argsort(argsort(fit names))]')
     from ..fitmodel import guard_requires
+    from ..roundtrip import TrialCtx
     got_names = out.cols.get('MODEL_NAME')
     cands = []
     if isinstance(got_names, Arr):
@@ -59,6 +69,21 @@ def check_filter_table(ctx):
             for rhs in (sym('mname', R_), mk_fn('strip', P(sym('mname', R_)))):
                 cands.append(mk_fn('all', B(R_, alg.eq(lhs, rhs))))
     okg, seen = guard_requires(I, cands)
+    t = TrialCtx(ctx)
+    for c, base in (('MODEL_NAME', sym('tname', T_)), ('P1', sym('p1', T_))):
+        ref = mk_fn('at', B(new, mk_fn('compress', L(new), B(T_, base), B(T_, member))), P(rank))
+        compare(t, 'PERM-9', 'filter_table column %s' % c, where_, out.cols.get(c), ref, (R_,), vocab={'tname', 'p1', 'mname', 'chi2', 'av', 'sc', 'model_id'}, fns={'isin', 'compress', 'nonzero', 'invperm'}, findings=I.findings,
+                detail_ok='col[isin(table names, fit names)][argsort(argsort(fit names))]')
+    rows = {c: _gather_index(out.cols.get(c), base_, T_) for c, base_ in (('MODEL_NAME', 'tname'), ('P1', 'p1'))}
+    if t.n_undecided and not t.n_violations and okg and rows['MODEL_NAME'] is not None and rows['P1'] is not None and not I.lost and not I.findings:
+        # the rows are found another way than by the double argsort.  What the property asks of them does not depend on the way: every column is taken from the
+        # table at the same rows, and the function refuses to return unless the names on those rows are the fits' names in order (CFG-6 below)
+        same = rows['MODEL_NAME'] == rows['P1']
+        for c in ('MODEL_NAME', 'P1'):
+            ctx.expect(same, 'PERM-9', 'filter_table column %s' % c, where_, 'every column is read at the same table rows, and the post-check admits only rows whose names are the fits\' names in order',
+                       'the columns are read at different rows: MODEL_NAME at %s, P1 at %s' % (alg.show(rows['MODEL_NAME'], 70), alg.show(rows['P1'], 70)), 'row-coherence')
+    else:
+        t.commit()
     ctx.expect(okg, 'CFG-6', 'filter_table post-check', where_, 'raises unless the returned names equal the fit\'s names in order', 'no raising post-check on the names (guards: %s)' % seen, 'post-check')
     # additional parameters keyed by name: filter_table interpreted with a symbolic per-name dictionary; the column it attaches must hold, on row r, the entry
     # of the (stripped) model name of row r
